@@ -228,6 +228,26 @@ func reach(c *explore.Ctx, visit func(scope string, idx int64, st *state)) {
 			}
 		}
 	}
+	// EXTREME values
+	for ei, e := range gen.Extremes() {
+		if c.MineIdx("R0-EXTREME", int64(ei)) && !c.Expired() {
+			desc := "built EXTREME " + e.Name
+			seg, err := build(e.Batch, 1025)
+			if err != nil {
+				c.Eval()
+				c.Violate("R0-EXTREME", int64(ei), sigOf(c.Prop, "build", "error: "+err.Error()), err.Error(), desc)
+				continue
+			}
+			c.R.Transitions++
+			b, nn, err := persist(seg)
+			if err != nil {
+				c.Eval()
+				c.Violate("R0-EXTREME", int64(ei), sigOf(c.Prop, "persist", "error: "+err.Error()), err.Error(), desc)
+				continue
+			}
+			emit("R0-EXTREME", int64(ei), &state{desc: desc, bytes: b, n: nn, orig: seg, want: model.Build(e.Batch), mode: 1025})
+		}
+	}
 	// partners for depth 2
 	partners := [][]model.Doc{
 		{gen.MixDoc(2, "p", 0), gen.MixDoc(1, "p", 1)},
